@@ -19,6 +19,7 @@ func (ex *Exec) setBigVal(guard, ref, v *Term) {
 
 var fnByteLen = DeclFunc("big.bytelen", []Sort{SInt}, SInt)
 var fnModExp = DeclFunc("modexp", []Sort{SInt, SInt, SInt}, SInt)
+var fnI2OSP = DeclFunc("i2osp", []Sort{SInt}, SInt)
 
 func byteLenTerm(v *Term) *Term {
 	if v.IsConst() && v.k.Sign() >= 0 {
@@ -66,6 +67,11 @@ func init() {
 		ex.setBigVal(reach, p.Ref, IntB(n))
 		return TupleV{p, True()}, reach
 	}
+	externs["math/big.NewInt"] = func(ex *Exec, f *Frame, call *ssa.Call, args []Value, reach *Term) (Value, *Term) {
+		ref := ex.newObj()
+		ex.setBigVal(reach, ref, args[0].(*Term))
+		return PtrV{Ref: ref, T: call.Type().(*types.Pointer).Elem()}, reach
+	}
 	externs["(*math/big.Int).SetUint64"] = func(ex *Exec, f *Frame, call *ssa.Call, args []Value, reach *Term) (Value, *Term) {
 		p := ex.ptr(args[0])
 		ex.setBigVal(reach, p.Ref, args[1].(*Term))
@@ -84,6 +90,11 @@ func init() {
 		x, y, m := ex.bigVal(ex.ptr(args[1]).Ref), ex.bigVal(ex.ptr(args[2]).Ref), ex.bigVal(ex.ptr(args[3]).Ref)
 		ex.oblige("nil", "big.Exp operands", reach, And(Ne(ex.ptr(args[1]).Ref, Int(0)), Ne(ex.ptr(args[2]).Ref, Int(0))))
 		r := App(fnModExp, nil, nil, x, y, m)
+		// (g^a)^b = (g^b)^a (mod m): instantiated when the base is itself a power mod m
+		if x.op == "app" && x.name == fnModExp.name && x.args[2] == m {
+			ex.usedModel("number theory (assumed): modexp(modexp(g,a,m),b,m) = modexp(modexp(g,b,m),a,m)")
+			ex.assumeAxiom(Eq(r, App(fnModExp, nil, nil, App(fnModExp, nil, nil, x.args[0], y, m), x.args[1], m)))
+		}
 		ex.assume(And(reach, Gt(m, Int(0))), And(Le(Int(0), r), Lt(r, m)))
 		// byte length is monotone: r < m  =>  bytelen(r) <= bytelen(m)
 		ex.assume(And(reach, Gt(m, Int(0))), Le(ex.byteLen(r), ex.byteLen(m)))
@@ -97,7 +108,15 @@ func init() {
 		v := ex.bigVal(p.Ref)
 		n := ex.byteLen(v)
 		ref := ex.newObj()
-		ex.mem.Copy(ex.byteKind(), reach, ref, Int(0), n, ex.unknownBytes(), Int(0))
+		src := ex.unknownBytes()
+		if ex.hmacNewHook != nil {
+			// Bytes layer: the content is a function of the value (I2OSP, minimal length)
+			id := App(fnI2OSP, nil, nil, v)
+			ex.assumeAxiom(Eq(blenT(id), n))
+			ex.noteLen(id, n)
+			src = ex.bytesRef(id, n)
+		}
+		ex.mem.Copy(ex.byteKind(), reach, ref, Int(0), n, src, Int(0))
 		ex.ghost["bigbytes:"+ref.String()] = v
 		return SliceV{Arr: ref, Off: Int(0), Len: n, Cap: n, Elem: types.Typ[types.Byte]}, reach
 	}
